@@ -29,6 +29,8 @@ def main():
     sess = Session(prop, args.tier, seed)
     sess.only = args.only
     try:
+        if os.environ.get('PYVC_FORCE_FALLBACK'):       # development aid: exercise the bounded stand-in path
+            raise EngineError('forced by PYVC_FORCE_FALLBACK')
         mod.build(sess)
         code = sess.finish()
     except EngineError as e:
